@@ -131,65 +131,110 @@ func measureDelegationRule(p *core.Program, r *core.Report, rule string) {
 		{"LineString", "Length", "length1", "len"}, {"LinearRing", "Length", "length1", "len"}, {"Polygon", "Length", "length2", ".ends"},
 		{"MultiLineString", "Length", "length2", ".ends"}, {"MultiPolygon", "Length", "length3", ".endss"},
 	}
-	for _, s := range specs {
-		fn := mustFn(p, r, rule, "", "(*"+s.typ+")."+s.method)
-		if fn == nil {
-			continue
-		}
-		recv := fn.Params[0]
-		ok, why := false, "no call of "+s.kernel
+	// kernelCall finds, in fn, the call that yields the kernel's value over the whole geometry recv: the kernel itself,
+	// or a helper of the package that is handed (a part of) recv and returns the kernel's value the same way.
+	var kernelCall func(fn *ssa.Function, recv ssa.Value, s spec, depth int) (ssa.Value, string)
+	kernelCall = func(fn *ssa.Function, recv ssa.Value, s spec, depth int) (ssa.Value, string) {
+		why := "no call of " + s.kernel
 		for _, c := range eng.Calls(fn) {
 			callee := c.Common().StaticCallee()
-			if callee == nil || callee.Name() != s.kernel {
+			if callee == nil {
 				continue
 			}
 			a := c.Common().Args
+			if callee.Name() != s.kernel {
+				if depth >= 2 || core.FnPkgPath(callee) != mod || len(a) == 0 || len(callee.Params) == 0 || callee.Blocks == nil {
+					continue
+				}
+				// the first argument is recv or the address of a struct embedded in it
+				base := a[0]
+				for {
+					fa, isFA := base.(*ssa.FieldAddr)
+					if !isFA {
+						break
+					}
+					base = fa.X
+				}
+				if base != recv {
+					continue
+				}
+				sub, _ := kernelCall(callee, callee.Params[0], s, depth+1)
+				if sub == nil {
+					continue
+				}
+				returnsIt := true
+				for _, b := range callee.Blocks {
+					if ret, isRet := b.Instrs[len(b.Instrs)-1].(*ssa.Return); isRet {
+						if len(ret.Results) != 1 || ret.Results[0] != sub {
+							returnsIt = false
+						}
+					}
+				}
+				if returnsIt {
+					return c.Value(), ""
+				}
+				continue
+			}
+			if len(a) < 4 {
+				continue
+			}
 			b0, p0, ok0 := fieldLoad(a[0])
 			zero, isZ := eng.ConstInt(a[1])
 			b3, p3, ok3 := fieldLoad(a[3])
 			third := false
 			if s.third == "len" {
 				if lc, isL := a[2].(*ssa.Call); isL && eng.BuiltinName(lc) == "len" {
-					if bl, pl, okl := fieldLoad(lc.Call.Args[0]); okl && bl == ssa.Value(recv) && strings.HasSuffix(pl, ".flatCoords") {
+					if bl, pl, okl := fieldLoad(lc.Call.Args[0]); okl && bl == recv && strings.HasSuffix(pl, ".flatCoords") {
 						third = true
 					}
 				}
-			} else if bt, pt, okt := fieldLoad(a[2]); okt && bt == ssa.Value(recv) && strings.HasSuffix(pt, s.third) {
+			} else if bt, pt, okt := fieldLoad(a[2]); okt && bt == recv && strings.HasSuffix(pt, s.third) {
 				third = true
 			}
 			switch {
-			case !(ok0 && b0 == ssa.Value(recv) && strings.HasSuffix(p0, ".flatCoords")):
+			case !(ok0 && b0 == recv && strings.HasSuffix(p0, ".flatCoords")):
 				why = "first argument is not g.flatCoords"
 			case !(isZ && zero == 0):
 				why = "the kernel does not start at offset 0"
 			case !third:
 				why = "third argument is not the whole geometry's " + s.third
-			case !(ok3 && b3 == ssa.Value(recv) && strings.HasSuffix(p3, ".stride")):
+			case !(ok3 && b3 == recv && strings.HasSuffix(p3, ".stride")):
 				why = "stride argument is not g.stride"
 			default:
-				// the result: returned directly (Length) or halved (Area)
-				val := c.Value()
-				for _, b := range fn.Blocks {
-					for _, in := range b.Instrs {
-						ret, isRet := in.(*ssa.Return)
-						if !isRet {
-							continue
-						}
-						if s.method == "Length" && ret.Results[0] == ssa.Value(val) {
-							ok = true
-						}
-						if s.method == "Area" {
-							if q, isQ := ret.Results[0].(*ssa.BinOp); isQ && q.Op == token.QUO && q.X == ssa.Value(val) {
-								if k, isC := q.Y.(*ssa.Const); isC && k.Value != nil && k.Float64() == 2 {
-									ok = true
-								}
+				return c.Value(), ""
+			}
+		}
+		return nil, why
+	}
+	for _, s := range specs {
+		fn := mustFn(p, r, rule, "", "(*"+s.typ+")."+s.method)
+		if fn == nil {
+			continue
+		}
+		val, why := kernelCall(fn, fn.Params[0], s, 0)
+		ok := false
+		if val != nil {
+			// the result: returned directly (Length) or halved (Area)
+			for _, b := range fn.Blocks {
+				for _, in := range b.Instrs {
+					ret, isRet := in.(*ssa.Return)
+					if !isRet {
+						continue
+					}
+					if s.method == "Length" && ret.Results[0] == val {
+						ok = true
+					}
+					if s.method == "Area" {
+						if q, isQ := ret.Results[0].(*ssa.BinOp); isQ && q.Op == token.QUO && q.X == val {
+							if k, isC := q.Y.(*ssa.Const); isC && k.Value != nil && k.Float64() == 2 {
+								ok = true
 							}
 						}
 					}
 				}
-				if !ok {
-					why = "the kernel's value is not returned (Area: divided by 2)"
-				}
+			}
+			if !ok {
+				why = "the kernel's value is not returned (Area: divided by 2)"
 			}
 		}
 		r.Check(ok, rule, short(fn), p.Pos(fn.Pos()), true, s.kernel+" over the whole geometry", why)
